@@ -2090,60 +2090,6 @@ func (ctx Ctx) imports(d []ast.Spec) []coq.Decl {
 	return decls
 }
 
-func (ctx Ctx) exprInterface(cvs []coq.Decl, expr ast.Expr) []coq.Decl {
-	switch f := expr.(type) {
-	case *ast.UnaryExpr:
-		if left, ok := f.X.(*ast.BinaryExpr); ok {
-			if call, ok := left.X.(*ast.CallExpr); ok {
-				cvs = ctx.callExprInterface(cvs, call)
-			}
-		}
-	case *ast.BinaryExpr:
-		if left, ok := f.X.(*ast.BinaryExpr); ok {
-			if call, ok := left.X.(*ast.CallExpr); ok {
-				cvs = ctx.callExprInterface(cvs, call)
-			}
-		}
-		if right, ok := f.Y.(*ast.BinaryExpr); ok {
-			if call, ok := right.X.(*ast.CallExpr); ok {
-				cvs = ctx.callExprInterface(cvs, call)
-			}
-		}
-	case *ast.CallExpr:
-		cvs = ctx.callExprInterface(cvs, f)
-	}
-	return cvs
-}
-
-func (ctx Ctx) stmtInterface(cvs []coq.Decl, stmt ast.Stmt) []coq.Decl {
-	switch f := stmt.(type) {
-	case *ast.ReturnStmt:
-		for _, result := range f.Results {
-			cvs = ctx.exprInterface(cvs, result)
-		}
-		if len(f.Results) > 0 {
-			if results, ok := f.Results[0].(*ast.BinaryExpr); ok {
-				if call, ok := results.X.(*ast.CallExpr); ok {
-					cvs = ctx.callExprInterface(cvs, call)
-				}
-			}
-		}
-	case *ast.IfStmt:
-		if call, ok := f.Cond.(*ast.CallExpr); ok {
-			cvs = ctx.callExprInterface(cvs, call)
-		}
-	case *ast.ExprStmt:
-		if call, ok := f.X.(*ast.CallExpr); ok {
-			cvs = ctx.callExprInterface(cvs, call)
-		}
-	case *ast.AssignStmt:
-		if call, ok := f.Rhs[0].(*ast.CallExpr); ok {
-			cvs = ctx.callExprInterface(cvs, call)
-		}
-	}
-	return cvs
-}
-
 // TODO: this is a hack, should have a better scheme for putting
 // interface/implementation types into the conversion name
 func unqualifyName(name string) string {
@@ -2193,9 +2139,12 @@ func (ctx Ctx) maybeDecls(d ast.Decl) []coq.Decl {
 			if d.Body == nil {
 				ctx.unsupported(d, "function declaration with no body")
 			}
-			for _, stmt := range d.Body.List {
-				cvs = ctx.stmtInterface(cvs, stmt)
-			}
+			ast.Inspect(d.Body, func(n ast.Node) bool {
+				if call, ok := n.(*ast.CallExpr); ok {
+					cvs = ctx.callExprInterface(cvs, call)
+				}
+				return true
+			})
 		}
 		fd := ctx.funcDecl(d)
 		var results []coq.Decl
